@@ -2,7 +2,7 @@
     Property theorems only, about the definitions REGENERATED from
     ibicus/utils/_running_window_mode.py (Gen/GenWindows.v). *)
 From Coq Require Import ZArith List Bool Sorted.
-From IV Require Import NP GenWindows C07_proofs Grid Driver Driver_proofs Driver_corollaries.
+From IV Require Import NP GenWindows C07_proofs Grid Driver Driver_proofs Driver_corollaries YearsDriver_proofs.
 Import ListNotations.
 Open Scope Z_scope.
 
@@ -95,6 +95,17 @@ Theorem C07_driver_defined_everywhere : forall (V : Type) (L S : Z), 0 < S -> S 
     forall k, 0 <= k < Z.of_nat (length dA) -> exists v, nth (Z.to_nat k) out None = Some v.
 Proof. exact driver_defined_everywhere. Qed.
 Print Assumptions C07_driver_defined_everywhere.
+
+(** the year-window loop of CDFt / QuantileDeltaMapping inside one day window (Model/Driver.v years_driver over the
+    REGENERATED year-window functions): for ANY list of years (gaps, leap-year-only sets, any storage order), any window
+    length and odd step <= length, and any method returning one value per selected time step, the loop succeeds
+    and every time step receives a value *)
+Theorem C07_years_driver_defined_everywhere : forall (V : Type) (L S : Z), 0 < S -> S <= L -> S mod 2 = 1 ->
+  forall years, years <> [] -> forall Wy : list bool -> list V, (forall m, length (Wy m) = ctrue m) ->
+  exists out, years_driver V L S years Wy = Some out /\ length out = length years /\
+    forall k, (k < length years)%nat -> exists v, nth k out None = Some v.
+Proof. exact years_driver_defined_everywhere. Qed.
+Print Assumptions C07_years_driver_defined_everywhere.
 
 (** non-vacuity / sanity by computation: a leap year starting on 1 March (days 61..366, 1..60),
     S = 31, L = 91; and the sub-annual span 4..18 with S = L = 15 that the unrepaired formula missed *)
